@@ -290,9 +290,9 @@ class Cleanup:
             elif (
                 token == STRING
                 and previous_token in (INDENT, DEDENT, NEWLINE)
-                and tokens[i + 1][0] == NEWLINE
+                and next((t[0] for t in tokens[i + 1 :] if t[0] != COMMENT), None) == NEWLINE
             ):
-                result.append("pass\n")  # replace the docstring by a pass statement
+                result.append("pass")  # replace the docstring by a pass statement
             elif token == FSTRING_MIDDLE:  # the tokenizer has halved the doubled braces
                 result.append(string.replace("{", "{{").replace("}", "}}"))
                 end_col += string.count("{") + string.count("}")  # two source columns each
